@@ -62,7 +62,7 @@ fn one_case(t: Transport, how: How, dir: &str) -> Result<(), String> {
     let saw_unbind = Arc::new(AtomicBool::new(false));
     let (e2, u2) = (eof.clone(), saw_unbind.clone());
     let url;
-    let mut settings = LdapConnSettings::new().set_conn_timeout(Duration::from_secs(3));
+    let mut settings = LdapConnSettings::new().set_conn_timeout(Duration::from_secs(10));
     match t {
         Transport::Tcp | Transport::Tls => {
             let l = std::net::TcpListener::bind("127.0.0.1:0").map_err(|e| e.to_string())?;
@@ -73,7 +73,7 @@ fn one_case(t: Transport, how: How, dir: &str) -> Result<(), String> {
             }
             std::thread::spawn(move || {
                 if let Ok((tcp, _)) = l.accept() {
-                    let _ = tcp.set_read_timeout(Some(Duration::from_secs(5)));
+                    let _ = tcp.set_read_timeout(Some(Duration::from_secs(15)));
                     if t == Transport::Tls {
                         let p12 = std::fs::read("/verif/build/pki/good.p12").expect("pkcs12");
                         let id = native_tls::Identity::from_pkcs12(&p12, "verif").expect("identity");
@@ -94,7 +94,7 @@ fn one_case(t: Transport, how: How, dir: &str) -> Result<(), String> {
             url = format!("ldapi://{}", path.replace('/', "%2F"));
             std::thread::spawn(move || {
                 if let Ok((s, _)) = l.accept() {
-                    let _ = s.set_read_timeout(Some(Duration::from_secs(5)));
+                    let _ = s.set_read_timeout(Some(Duration::from_secs(15)));
                     serve(s, e2, u2);
                 }
             });
@@ -104,7 +104,7 @@ fn one_case(t: Transport, how: How, dir: &str) -> Result<(), String> {
     rt.block_on(async {
         let (conn, mut ldap) = LdapConnAsync::with_settings(settings, &url).await.map_err(|e| format!("setup failed: {}", e))?;
         let driver = tokio::spawn(async move { conn.drive().await.map_err(|e| e.to_string()) });
-        let r = ldap.with_timeout(Duration::from_secs(3)).simple_bind("cn=x", "pw").await.map_err(|e| format!("bind failed: {}", e))?;
+        let r = ldap.with_timeout(Duration::from_secs(10)).simple_bind("cn=x", "pw").await.map_err(|e| format!("bind failed: {}", e))?;
         if r.rc != 0 {
             return Err(format!("bind rc {}", r.rc));
         }
@@ -121,7 +121,7 @@ fn one_case(t: Transport, how: How, dir: &str) -> Result<(), String> {
         };
         // the server must see the end of the stream although (first variant) a handle is still alive
         let t0 = Instant::now();
-        while !eof.load(Ordering::SeqCst) && t0.elapsed() < Duration::from_secs(3) {
+        while !eof.load(Ordering::SeqCst) && t0.elapsed() < Duration::from_secs(10) {
             tokio::time::sleep(Duration::from_millis(5)).await;
         }
         let seen = eof.load(Ordering::SeqCst);
@@ -133,7 +133,7 @@ fn one_case(t: Transport, how: How, dir: &str) -> Result<(), String> {
         }
         if how == How::DropLastHandle {
             // the driver must have returned as well
-            match tokio::time::timeout(Duration::from_secs(3), driver).await {
+            match tokio::time::timeout(Duration::from_secs(10), driver).await {
                 Ok(_) => {}
                 Err(_) => return Err("drive() did not return after the last handle was dropped".into()),
             }
@@ -152,7 +152,7 @@ pub fn run(rep: &Reporter) -> u64 {
         for how in [How::UnbindWithOtherHandleAlive, How::DropLastHandle] {
             n += 1;
             let d = dir.clone();
-            let r = with_deadline(Duration::from_secs(15), move || crate::common::catch(move || one_case(t, how, &d)));
+            let r = with_deadline(Duration::from_secs(45), move || crate::common::catch(move || one_case(t, how, &d)));
             let replay = json!({"engine":"c04real","transport":format!("{:?}", t),"how":format!("{:?}", how)});
             match r {
                 None => {
